@@ -578,6 +578,21 @@ def _shard(shard, nshards, payload):
     from bisturi.deferred import compile_expr_into_callable
     tier = payload['tier']
     st = Stats()
+    if payload.get('o'):
+        # under python -O: all trees of depth <= 1, the sequence and n-ary families through the direct channel, a thinned public channel
+        with mk.World() as w:
+            K = w.module(BASE_SRC).K
+            fields = {n: f for n, f, _, _ in K.get_fields()}
+            idx = 0
+            for fam, trees in families(tier):
+                for t in trees:
+                    idx += 1
+                    if idx % nshards == shard:
+                        check_tree_direct(t, K, fields, compile_expr_into_callable, st, fam)
+        for i, (fam, t) in enumerate(public_trees(tier)[::9]):
+            if i % nshards == shard:
+                check_tree_public(t, st, fam)
+        return st
     with mk.World() as w:
         K = w.module(BASE_SRC).K
         fields = {n: f for n, f, _, _ in K.get_fields()}
@@ -614,6 +629,10 @@ def _shard(shard, nshards, payload):
 
 def run(tier):
     st = common.merge_all(common.run_sharded(_shard, {'tier': tier}))
+    from mc import ea_o
+    so = ea_o.run_shard('mc.props.c09', '_shard', {'tier': 'quick', 'o': True})      # depth-1 trees and the families once more under python -O
+    st.merge(so)
+    st.notes.extend(so.notes)
     cov = {
         'states': st.count('outcomes'),
         'transitions': st.n.get('evaluations', 0),
@@ -626,7 +645,7 @@ def run(tier):
         'rule': 'all expression trees of depth <=1 and %s over 18 binary operators in every operand order (field/const/sub-expression), '
                 'neg/invert/truth, plus the sequence family (index, constant slices, len, ==/!=) and the n-ary family (chooses in list/positional/'
                 'dict/keyword form, if_true_then_else), plus groups of sibling expressions over the same fields that differ only in equal-comparing constants of different type (2/2.0, 1/True/1.0, 0/False/0.0) compiled side by side; operands a,b in -2..3 (depth-1 trees also 7, 8, 31..33, 63..65, 100, 127, -128), s in [],[0],[1,2,3], d in b"",b"ab"; '
-                'states = distinct (ok/exception, result type or exception class)' % (
+                'states = distinct (ok/exception, result type or exception class); the depth-1 trees and the families once more in child interpreters started with -O' % (
                     'all depth-2 trees' if tier == 'thorough' else 'depth-2 trees nested on one side'),
         'exhaustive': True,
         'bounds': {'depth': 2, 'operand_values': INT_VALUES},
